@@ -814,3 +814,218 @@ Proof.
   destruct (dec_step cl il _ _ g ph pn _ _ s1 r (DM e) Dec) as [H _]. cbn [snd]. rewrite H.
   destruct (DM e) as [Iv]. eapply holds_iff_slot; eassumption.
 Qed.
+
+(* ================================================================== many rotations (rot) *)
+Record rinv (k : N) (r : rot_st) : Prop := {
+  ri_p : r_panic r = false; ri_i : r_i r = k + 1; ri_d : r_done r = k; ri_o : r_opened r = k;
+  ri_ph : phase (r_s r) = N.odd k; ri_t : timer (r_s r) = None; ri_g : generation (r_s r) = k;
+  ri_a : k_gen (slot (r_s r) (N.odd k)) = k;
+  ri_n : k_gen (slot (r_s r) (negb (N.odd k))) = k + 1 }.
+
+Lemma has_elapsed_1_1 : has_elapsed 1 1 = true.
+Proof. reflexivity. Qed.
+
+Lemma rot_cycle_inv : forall k r, k < u16_max -> rinv k r -> rinv (k + 1) (rot_cycle r).
+Proof.
+  intros k [i s d o l pn] Hk [Hp Hi Hd Ho Hph Ht Hg Ha Hn]. cbn [r_panic r_i r_s r_done r_opened r_last] in *.
+  subst pn i d o. unfold rot_cycle. cbn [r_panic r_i r_s r_done r_opened r_last].
+  assert (Hov : rotation_overflows s (k + 1) (N.odd (k + 1)) = false).
+  { unfold rotation_overflows. rewrite Hg. destruct (N.eqb_spec k u16_max); [lia|]. apply Bool.andb_false_r. }
+  rewrite Hov. unfold decrypt_packet. rewrite phase_to_use_eq. rewrite odd_succ_negb.
+  rewrite Hn, N.eqb_refl.
+  cbn [phase set_slot timer in_progress]. unfold in_progress. cbn [timer set_slot]. rewrite Hph, Ht.
+  assert (Hb : negb (Bool.eqb (negb (N.odd k)) (N.odd k)) && negb false = true) by (destruct (N.odd k); reflexivity).
+  rewrite Hb. cbn [is_ok generation set_timer rotate_phase set_slot].
+  unfold on_timeout. cbn [timer set_timer]. rewrite has_elapsed_1_1.
+  constructor; cbn [r_panic r_i r_s r_done r_opened r_last]; try reflexivity.
+  - cbn. rewrite Hph, odd_succ_negb. reflexivity.
+  - cbn. rewrite Hg. reflexivity.
+  - rewrite odd_succ_negb. unfold derive_and_store_next_key, active. cbn. rewrite Hph.
+    destruct (N.odd k); cbn in *; exact Hn.
+  - rewrite odd_succ_negb, Bool.negb_involutive.
+    unfold derive_and_store_next_key, active, derive_next. cbn. rewrite Hph.
+    destruct (N.odd k); cbn in *; rewrite Hn; reflexivity.
+Qed.
+
+Lemma rot_iter_inv : forall cl il win n, n <= u16_max ->
+  rinv n (N.iter n rot_cycle
+    {| r_i := 1; r_s := ks_new cl il win; r_done := 0; r_opened := 0; r_last := 0; r_panic := false |}).
+Proof.
+  intros cl il win n. induction n as [|n IH] using N.peano_ind; intros Hn.
+  - cbn. constructor; reflexivity.
+  - rewrite N.iter_succ. rewrite <- N.add_1_r. apply rot_cycle_inv; [lia|]. apply IH. lia.
+Qed.
+
+(* up to 65535 key updates the endpoint follows every update; the judgement accepts the model *)
+Theorem rot_judge_run_partial : forall c, rot_n c <= u16_max -> rot_judge c (rot_run c) = true.
+Proof.
+  intros c Hn. unfold rot_judge, rot_run, rot_final, ks_cfg.
+  destruct (rot_iter_inv (zN (nth 0 c 0%Z)) (zN (nth 1 c 0%Z)) (zN (nth 2 c 0%Z)) (rot_n c) Hn)
+    as [Hp Hi Hd Ho Hph Ht Hg Ha _].
+  cbn [app st_small]. rewrite Hp, Hd, Ho, Hph. unfold active. rewrite Hph, Ha.
+  cbn [bz]. rewrite !Z.eqb_refl. reflexivity.
+Qed.
+
+(* the 65536th update: with overflow checks the model (like the real KeySet) stops with a panic,
+   which the judgement rejects *)
+Lemma rot_overflow_refuted :
+  rot_run [64; 64; 10; 65536]%Z = [1; 65535; 65535; 65535; 1; 65535; 0; 65535]%Z /\
+  rot_judge [64; 64; 10; 65536]%Z (rot_run [64; 64; 10; 65536]%Z) = false.
+Proof. split; vm_compute; reflexivity. Qed.
+
+(* in the other components the counter cannot overflow: it grows by at most one per operation *)
+Lemma kstep_generation : forall s o, generation (fst (kstep s o)) <= generation s + 1.
+Proof.
+  intros s o. destruct o as [|g p pn la pto|now0]; cbn [kstep].
+  - unfold encrypt_packet. destruct (expired _); cbn; lia.
+  - unfold decrypt_packet. destruct (_ =? _); [destruct (_ && _)|destruct (_ <=? _)]; cbn; lia.
+  - cbn [fst]. unfold on_timeout. destruct (timer s); [|lia]. destruct (has_elapsed _ _); cbn; lia.
+Qed.
+
+Theorem generation_counter_bounded : forall ops s,
+  generation (ksteps s ops) <= generation s + N.of_nat (length ops).
+Proof.
+  induction ops as [|o t IH]; intros s; [cbn; lia|]. cbn [ksteps length].
+  specialize (IH (fst (kstep s o))). pose proof (kstep_generation s o). lia.
+Qed.
+
+(* ================================================================== H1: the previous generation is
+   retained for the whole derivation-timer period *)
+Lemma dsteps_app : forall a b d, dsteps d (a ++ b) = dsteps (dsteps d a) b.
+Proof. induction a as [|o t IH]; intros b d; [reflexivity|]. cbn [app dsteps]. apply IH. Qed.
+
+Lemma kstep_keeps_timer : forall s o t, timer s = Some t ->
+  (forall now0, o = KTimeout now0 -> has_elapsed t now0 = false) ->
+  timer (fst (kstep s o)) = Some t /\ forall q, gen_of (fst (kstep s o)) q = gen_of s q.
+Proof.
+  intros s o t T H. destruct o as [|g p pn la pto0|now0]; cbn [kstep].
+  - unfold encrypt_packet. destruct (expired _); cbn [fst]; [split; auto|].
+    split; [exact T|]. intros q. unfold gen_of. destruct q, (encryption_phase s); reflexivity.
+  - unfold decrypt_packet. rewrite phase_to_use_eq.
+    assert (IP : in_progress (set_slot s p (on_dec (slot s p))) = true) by (unfold in_progress; cbn; rewrite T; reflexivity).
+    rewrite IP, Bool.andb_false_r.
+    destruct (_ =? _); [|destruct (_ <=? _)]; cbn [fst]; (split; [exact T|]);
+      intros q; unfold gen_of; destruct q, p; reflexivity.
+  - cbn [fst]. unfold on_timeout. rewrite T, (H now0 eq_refl). split; auto.
+Qed.
+
+Lemma dstep_now_mono : forall d o, now d <= now (fst (dstep d o)).
+Proof.
+  intros d o. destruct o as [e|e i|dt|e p pn]; cbn [dstep].
+  - destruct (encrypt_packet (ep d e)) as [s1 [ph g|ph]]; cbn; lia.
+  - destruct (pick _ _) as [[pn [g p]]|]; [|cbn; lia].
+    destruct (decrypt_packet _ _ _ _ _ _) as [s1 r]. destruct (is_ok r); cbn; lia.
+  - cbn. lia.
+  - destruct (decrypt_packet _ _ _ _ _ _) as [s1 r]. cbn. lia.
+Qed.
+
+Lemma dsteps_now_mono : forall ops d, now d <= now (dsteps d ops).
+Proof.
+  induction ops as [|o t IH]; intros d; [cbn; lia|]. cbn [dsteps].
+  pose proof (dstep_now_mono d o). specialize (IH (fst (dstep d o))). lia.
+Qed.
+
+Lemma not_elapsed : forall t n, n + Gen_C15.granularity_us <= t -> has_elapsed t n = false.
+Proof. intros. unfold has_elapsed. apply N.ltb_ge. assumption. Qed.
+
+(* what one step of the composed system does to endpoint e: nothing, or one endpoint operation
+   (an on_timeout always carries the new current time) *)
+Lemma dstep_ep : forall d o e,
+  ep (fst (dstep d o)) e = ep d e \/
+  exists ko, ep (fst (dstep d o)) e = fst (kstep (ep d e) ko) /\
+             forall n, ko = KTimeout n -> n = now (fst (dstep d o)).
+Proof.
+  intros d o e. destruct o as [e'|e' i|dt|e' p pn]; cbn [dstep].
+  - destruct (encrypt_packet (ep d e')) as [s1 r] eqn:E.
+    destruct (Bool.eqb e' e) eqn:Ee.
+    + apply Bool.eqb_prop in Ee. subst e'. right. exists KEnc. split; [|intros; discriminate].
+      cbn [kstep]. rewrite E. destruct r; destruct e; reflexivity.
+    + left. destruct r; destruct e, e'; try discriminate; reflexivity.
+  - destruct (pick _ _) as [[pn [g p]]|]; [|left; reflexivity].
+    destruct (decrypt_packet (ep d e') g p pn (largest d e') (now d + pto d)) as [s1 r] eqn:E.
+    destruct (Bool.eqb e' e) eqn:Ee.
+    + apply Bool.eqb_prop in Ee. subst e'. right. exists (KDec g p pn (largest d e) (now d + pto d)).
+      split; [|intros; discriminate]. cbn [kstep]. rewrite E. destruct (is_ok r); destruct e; reflexivity.
+    + left. destruct (is_ok r); destruct e, e'; try discriminate; reflexivity.
+  - right. exists (KTimeout (now d + dt)). split; [|intros n H; injection H as <-; reflexivity].
+    destruct e; reflexivity.
+  - destruct (decrypt_packet (ep d e') forged_gen p pn (largest d e') (now d + pto d)) as [s1 r] eqn:E.
+    destruct (Bool.eqb e' e) eqn:Ee.
+    + apply Bool.eqb_prop in Ee. subst e'. right. exists (KDec forged_gen p pn (largest d e) (now d + pto d)).
+      split; [|intros; discriminate]. cbn [kstep]. rewrite E. destruct e; reflexivity.
+    + left. destruct e, e'; try discriminate; reflexivity.
+Qed.
+
+Lemma dstep_keeps_timer : forall d o e t, timer (ep d e) = Some t ->
+  now (fst (dstep d o)) + Gen_C15.granularity_us <= t ->
+  timer (ep (fst (dstep d o)) e) = Some t /\
+  forall q, gen_of (ep (fst (dstep d o)) e) q = gen_of (ep d e) q.
+Proof.
+  intros d o e t T H. destruct (dstep_ep d o e) as [E|[ko [E Hk]]]; rewrite E; [split; auto|].
+  apply kstep_keeps_timer; [exact T|]. intros n0 Hn. rewrite (Hk n0 Hn). apply not_elapsed. exact H.
+Qed.
+
+(* an armed derivation timer t stays armed, and both slots keep their generations, as long as the
+   clock has not reached t - granularity: whatever is sealed, delivered, forged or timed meanwhile *)
+Lemma duo_retain : forall ops d e t, timer (ep d e) = Some t ->
+  now (dsteps d ops) + Gen_C15.granularity_us <= t ->
+  timer (ep (dsteps d ops) e) = Some t /\
+  forall q, gen_of (ep (dsteps d ops) e) q = gen_of (ep d e) q.
+Proof.
+  induction ops as [|o r IH]; intros d e t T H; [split; auto|]. cbn [dsteps] in *.
+  pose proof (dsteps_now_mono r (fst (dstep d o))) as M.
+  destruct (dstep_keeps_timer d o e t T) as [T1 G1]; [lia|].
+  destruct (IH _ e t T1 H) as [T2 G2]. split; [exact T2|]. intros q. rewrite G2. apply G1.
+Qed.
+
+(* the timer armed by a rotation is the delivery time plus the configured PTO *)
+Lemma rotation_sets_timer : forall d e i t, timer (ep d e) = None ->
+  timer (ep (fst (dstep d (DDeliver e i))) e) = Some t -> t = now d + pto d.
+Proof.
+  intros d e i t T H. cbn [dstep] in H. destruct (pick _ _) as [[pn [g p]]|]; [|cbn in H; congruence].
+  unfold decrypt_packet in H. rewrite phase_to_use_eq in H.
+  destruct (_ =? _) in H; [destruct (_ && _) in H|destruct (_ <=? _) in H]; cbn [fst snd is_ok] in H;
+    destruct e; cbn in H; congruence.
+Qed.
+
+(* H1.  Endpoint e rotated at time T (delivery of packet i armed its timer).  Whatever happens
+   afterwards, until the clock reaches T + pto - granularity every genuine packet of the peer sealed
+   under the previous generation still opens: reordering across a key update is tolerated for the
+   derivation-timer period. *)
+Theorem old_generation_retained : forall cl il win p ops e i ops' j pn g ph,
+  let d0 := dsteps (duo_new cl il win p) ops in
+  let d1 := fst (dstep d0 (DDeliver e i)) in
+  let d2 := dsteps d1 ops' in
+  timer (ep d0 e) = None -> in_progress (ep d1 e) = true ->
+  now d2 + Gen_C15.granularity_us <= now d0 + pto d0 ->
+  pick (sent d2 (negb e)) j = Some (pn, (g, ph)) ->
+  g + 1 = act_gen (ep d1 e) ->
+  is_ok (snd (decrypt_packet (ep d2 e) g ph pn (largest d2 e) (now d2 + pto d2))) = true.
+Proof.
+  intros cl il win p ops e i ops' j pn g ph d0 d1 d2 T0 IP H P G.
+  unfold in_progress in IP. destruct (timer (ep d1 e)) as [t|] eqn:T1; [|discriminate].
+  pose proof (rotation_sets_timer d0 e i t T0 T1) as ->.
+  destruct (duo_retain ops' d1 e _ T1 H) as [T2 G2].
+  assert (E : d2 = dsteps (duo_new cl il win p) (ops ++ DDeliver e i :: ops')).
+  { unfold d2, d1, d0. rewrite dsteps_app. reflexivity. }
+  pose proof (mutual_decryptability_partial cl il win p (ops ++ DDeliver e i :: ops') e j pn g ph) as M.
+  cbn zeta in M. rewrite <- E in M. rewrite (M P).
+  unfold ep_holds, in_progress. rewrite T2.
+  assert (A : act_gen (ep d2 e) = act_gen (ep d1 e)).
+  { unfold act_gen, active.
+    assert (Ph : phase (ep d2 e) = phase (ep d1 e)).
+    { destruct (dgood_steps cl il (ops ++ DDeliver e i :: ops') _ (dgood_init cl il win p)) as [[j2 [DM2 _]] _].
+      rewrite <- E in DM2. destruct (DM2 e) as [[P2 _ _ _ _]].
+      destruct (dgood_steps cl il (ops ++ [DDeliver e i]) _ (dgood_init cl il win p)) as [[j1 [DM1 _]] _].
+      rewrite dsteps_app in DM1. cbn [dsteps] in DM1. fold d0 in DM1. fold d1 in DM1.
+      destruct (DM1 e) as [[P1 _ _ _ _]].
+      (* the phase is the parity of the active generation in both states; generations agree slotwise *)
+      unfold act_gen, active in P1, P2.
+      destruct (phase (ep d2 e)) eqn:X2, (phase (ep d1 e)) eqn:X1; try reflexivity; exfalso;
+        [pose proof (G2 true) as Q|pose proof (G2 false) as Q]; unfold gen_of in Q;
+        pose proof (slot_parity _ _ _ true (let (I) := DM1 e in I)) as S1t;
+        pose proof (slot_parity _ _ _ false (let (I) := DM1 e in I)) as S1f;
+        unfold gen_of in S1t, S1f; rewrite Q in P2; congruence. }
+    rewrite Ph. apply (G2 (phase (ep d1 e))). }
+  rewrite A, <- G, N.eqb_refl. cbn. rewrite Bool.orb_true_r. reflexivity.
+Qed.
